@@ -443,6 +443,20 @@ def connect_does_not_swallow_a_stop(chk: Check, repo: Repo) -> None:
             ok = isinstance(h.body[-1], ast.Raise)
             chk.ob("connect-does-not-swallow-a-stop", f.site(h), ok, f"{qual}: `except {ast.unparse(h.type)}` " + ("ends in raise" if ok else "returns normally: a stop() during this step lets connect() continue and report CONNECTED on the closed transport"), key=f"connect-swallows-cancel|{qual}")
     chk.count("cancellation handlers in the routing connect path", n)
+    # ... and a disconnect() that ran while connect() was suspended in the transport's connect (plain UDP: nothing is
+    # cancelled, the sockets are simply opened afterwards) is noticed: CONNECTED is reported only where the flag
+    # disconnect() raises is known to be down, and the flag is lowered before the await, not after it
+    rc = repo.func("xknx.io.routing", "Routing.connect")
+    rd = repo.func("xknx.io.routing", "Routing.disconnect")
+    chk.unit(rd)
+    cfg = CFG(rc.node)
+    mf = cfg.must_facts()
+    conn = [x for x in cfg.nodes if x.ast is not None and x.kind == "stmt" and any(call_name(c).endswith("connection_state_changed") and any(ast.unparse(a_).endswith("XknxConnectionState.CONNECTED") for a_ in c.args) for c in calls(x.ast))]
+    flags = sorted({ast.unparse(w.stmt.targets[0]) for w in attr_writes(repo, "_disconnecting", include_mutators=False) if w.func.qualname == "Routing.disconnect" and isinstance(w.stmt, ast.Assign) and isinstance(w.stmt.value, ast.Constant) and w.stmt.value.value is True})
+    aw = [x for x in cfg.nodes if x.ast is not None and x.kind == "stmt" and any(isinstance(y, ast.Await) and "transport.connect" in ast.unparse(y) for y in ast.walk(x.ast))]
+    lowered = [x for x in cfg.nodes if x.ast is not None and isinstance(x.ast, ast.Assign) and ast.unparse(x.ast.targets[0]) in flags and isinstance(x.ast.value, ast.Constant) and x.ast.value.value is False]
+    ok = bool(conn) and bool(flags) and len(aw) == 1 and all(any((fl, False) in mf[x.id] or (f"not {fl}", True) in mf[x.id] for fl in flags) for x in conn) and bool(lowered) and all(aw[0].id in cfg.reachable([x.id], include_start=False) and x.id not in cfg.reachable([aw[0].id], include_start=False) for x in lowered)
+    chk.ob("connect-notices-a-disconnect", rc.site(), ok, "Routing.connect reports CONNECTED only where the flag Routing.disconnect raises is down, lowering it before the transport's connect" if ok else "Routing.connect reports CONNECTED without looking whether disconnect() ran while it was suspended in the transport's connect: stop() during start() is undone - CONNECTED with no interface, sockets left open", key="routing-connect|disconnect-while-connecting")
 
 
 def run(chk: Check, repo: Repo) -> None:
